@@ -1,22 +1,24 @@
 ------------------------ MODULE ResolverCacheProof ------------------------
 (* Unbounded version of ResolverCache's freshness result: for EVERY number of goroutines, key set, clock range, number
-   of zone generations and TTL lists, an entry's lifetime is exactly the smallest TTL of the response it came from, and
-   an answer is returned either by the call that fetched it or while younger than that smallest TTL.  Proved with TLAPS
-   by an inductive invariant; MinOf is never unfolded, so the result does not depend on how "the smallest TTL" is
-   computed.  TLC's runs of MCResolverCache cover small instances exhaustively and bind the steps to the code. *)
+   of zone generations, TTL lists and entry objects, with evictions, failures and cancellations, an entry object's
+   lifetime is exactly the smallest TTL of the response it came from, an object only serves the key it was created for,
+   and an answer is returned either by the call that fetched it or while younger than that smallest TTL.  Proved with
+   TLAPS by an inductive invariant; MinOf is never unfolded, so the result does not depend on how "the smallest TTL" is
+   computed.  TLC's runs of ResolverCache cover small instances exhaustively and bind the steps to the code. *)
 EXTENDS ResolverCache, TLAPS
 
 ASSUME KeysNonEmpty == Keys # {}
 
-PCs == {"idle", "fast", "wantlock", "locked", "fetch", "store", "ret"}
-Shape == /\ pc \in [Gs -> PCs] /\ key \in [Gs -> Keys]
-         /\ DOMAIN got = Gs /\ DOMAIN fetched = Gs /\ DOMAIN upq = Gs /\ DOMAIN cache = Keys
+PCs == {"idle", "get", "add", "fast", "wantlock", "locked", "fetch", "store", "ret"}
+Shape == /\ pc \in [Gs -> PCs] /\ key \in [Gs -> Keys] /\ nobj \in Nat
+         /\ DOMAIN got = Gs /\ DOMAIN fetched = Gs /\ DOMAIN upq = Gs /\ DOMAIN cache = Keys /\ DOMAIN ent = Gs
+         /\ DOMAIN objs = Objs /\ DOMAIN okey = Objs
 \* lifetime = smallest TTL, exactly
-EntryExact == \A k \in Keys : cache[k] # None => cache[k].exp = cache[k].f + MinOf(ttls[k][cache[k].gen])
+EntryExact == \A o \in Objs : objs[o] # None => objs[o].exp = objs[o].f + MinOf(ttls[okey[o]][objs[o].gen])
 \* between the upstream answer and its store no time passes, and the stored response is the zone's
 Pending == \A g \in Gs : pc[g] = "store" => /\ upq[g] /\ fetched[g].f = now
                                              /\ fetched[g].ttls = ttls[key[g]][fetched[g].gen]
-IndInv == Shape /\ EntryExact /\ Pending /\ Fresh
+IndInv == Shape /\ KeyOK /\ EntryExact /\ Pending /\ Fresh
 
 THEOREM InitInd == Init => IndInv
 <1> SUFFICES ASSUME Init PROVE IndInv
@@ -24,87 +26,104 @@ THEOREM InitInd == Init => IndInv
 <1>1 (CHOOSE k \in Keys : TRUE) \in Keys
   BY KeysNonEmpty
 <1>2 Shape
-  BY <1>1 DEF Init, Shape, PCs
-<1>3 EntryExact /\ Pending /\ Fresh
-  BY DEF Init, EntryExact, Pending, Fresh
+  BY <1>1 DEF Init, Shape, PCs, Objs
+<1>3 KeyOK /\ EntryExact /\ Pending /\ Fresh
+  BY DEF Init, KeyOK, EntryExact, Pending, Fresh, Objs
 <1> QED BY <1>2, <1>3 DEF IndInv
 
 LEMMA StepInd == IndInv /\ [Next]_vars => IndInv'
 <1> SUFFICES ASSUME IndInv, [Next]_vars PROVE IndInv'
   OBVIOUS
-<1> USE DEF IndInv, Shape, PCs
+<1> USE DEF IndInv, Shape, PCs, Objs
 <1>1 ASSUME NEW g \in Gs, NEW k \in Keys, Call(g, k) PROVE IndInv'
-  BY <1>1 DEF Call, EntryExact, Pending, Fresh
+  BY <1>1 DEF Call, KeyOK, EntryExact, Pending, Fresh
+<1>1a ASSUME NEW g \in Gs, Get(g) PROVE IndInv'
+  <2>1 CASE cache[key[g]] # 0
+    BY <1>1a, <2>1 DEF Get, KeyOK, EntryExact, Pending, Fresh
+  <2>2 CASE cache[key[g]] = 0
+    BY <1>1a, <2>2 DEF Get, KeyOK, EntryExact, Pending, Fresh
+  <2> QED BY <2>1, <2>2
+<1>1b ASSUME NEW g \in Gs, Add(g) PROVE IndInv'
+  <2>1 Shape'
+    BY <1>1b DEF Add
+  <2>2 KeyOK'
+    BY <1>1b DEF Add, KeyOK
+  <2>3 EntryExact'
+    BY <1>1b DEF Add, EntryExact, None
+  <2>4 Pending' /\ Fresh'
+    BY <1>1b DEF Add, Pending, Fresh
+  <2> QED BY <2>1, <2>2, <2>3, <2>4
 <1>2 ASSUME NEW g \in Gs, FastRead(g) PROVE IndInv'
-  <2>1 Shape' /\ EntryExact' /\ Pending'
-    BY <1>2 DEF FastRead, EntryExact, Pending
+  <2>1 Shape' /\ KeyOK' /\ EntryExact' /\ Pending'
+    BY <1>2 DEF FastRead, KeyOK, EntryExact, Pending
   <2>2 Fresh'
-    <3>1 CASE Valid(cache[key[g]], now)
-      <4>1 key[g] \in Keys /\ cache[key[g]] # None /\ now < cache[key[g]].exp
+    <3>0 ent[g] \in Objs /\ okey[ent[g]] = key[g]
+      BY <1>2 DEF FastRead, KeyOK
+    <3>1 CASE Valid(objs[ent[g]], now)
+      <4>1 objs[ent[g]] # None /\ now < objs[ent[g]].exp
         BY <3>1 DEF Valid
-      <4>2 now < cache[key[g]].f + MinOf(ttls[key[g]][cache[key[g]].gen])
-        BY <4>1 DEF EntryExact
+      <4>2 now < objs[ent[g]].f + MinOf(ttls[key[g]][objs[ent[g]].gen])
+        BY <4>1, <3>0 DEF EntryExact
       <4> QED BY <1>2, <3>1, <4>2 DEF FastRead, Fresh
-    <3>2 CASE ~Valid(cache[key[g]], now)
+    <3>2 CASE ~Valid(objs[ent[g]], now)
       BY <1>2, <3>2 DEF FastRead, Fresh
     <3> QED BY <3>1, <3>2
   <2> QED BY <2>1, <2>2
 <1>3 ASSUME NEW g \in Gs, Lock(g) PROVE IndInv'
-  BY <1>3 DEF Lock, EntryExact, Pending, Fresh
+  BY <1>3 DEF Lock, KeyOK, EntryExact, Pending, Fresh
 <1>4 ASSUME NEW g \in Gs, Recheck(g) PROVE IndInv'
-  <2>1 Shape' /\ EntryExact' /\ Pending'
-    BY <1>4 DEF Recheck, EntryExact, Pending
+  <2>1 Shape' /\ KeyOK' /\ EntryExact' /\ Pending'
+    BY <1>4 DEF Recheck, KeyOK, EntryExact, Pending
   <2>2 Fresh'
-    <3>1 CASE Valid(cache[key[g]], now)
-      <4>1 key[g] \in Keys /\ cache[key[g]] # None /\ now < cache[key[g]].exp
+    <3>0 ent[g] \in Objs /\ okey[ent[g]] = key[g]
+      BY <1>4 DEF Recheck, KeyOK
+    <3>1 CASE Valid(objs[ent[g]], now)
+      <4>1 objs[ent[g]] # None /\ now < objs[ent[g]].exp
         BY <3>1 DEF Valid
-      <4>2 now < cache[key[g]].f + MinOf(ttls[key[g]][cache[key[g]].gen])
-        BY <4>1 DEF EntryExact
+      <4>2 now < objs[ent[g]].f + MinOf(ttls[key[g]][objs[ent[g]].gen])
+        BY <4>1, <3>0 DEF EntryExact
       <4> QED BY <1>4, <3>1, <4>2 DEF Recheck, Fresh
-    <3>2 CASE ~Valid(cache[key[g]], now)
+    <3>2 CASE ~Valid(objs[ent[g]], now)
       BY <1>4, <3>2 DEF Recheck, Fresh
     <3> QED BY <3>1, <3>2
   <2> QED BY <2>1, <2>2
 <1>5 ASSUME NEW g \in Gs, Fetch(g) PROVE IndInv'
   <2>1 CASE up
-    BY <1>5, <2>1 DEF Fetch, EntryExact, Pending, Fresh
+    BY <1>5, <2>1 DEF Fetch, KeyOK, EntryExact, Pending, Fresh
   <2>2 CASE ~up
-    BY <1>5, <2>2 DEF Fetch, EntryExact, Pending, Fresh
+    BY <1>5, <2>2 DEF Fetch, KeyOK, EntryExact, Pending, Fresh
   <2> QED BY <2>1, <2>2
 <1>6 ASSUME NEW g \in Gs, Store(g) PROVE IndInv'
   <2>1 pc[g] = "store" /\ upq[g] /\ fetched[g].f = now /\ fetched[g].ttls = ttls[key[g]][fetched[g].gen] /\ key[g] \in Keys
-    BY <1>6 DEF Store, Pending
-  <2>2 Shape' /\ Pending'
-    BY <1>6 DEF Store, Pending
+       /\ ent[g] \in Objs /\ okey[ent[g]] = key[g]
+    BY <1>6 DEF Store, Pending, KeyOK
+  <2>2 Shape' /\ Pending' /\ KeyOK'
+    BY <1>6 DEF Store, Pending, KeyOK
   <2>3 EntryExact'
-    BY <1>6, <2>1 DEF Store, EntryExact
+    BY <1>6, <2>1 DEF Store, EntryExact, None
   <2>4 Fresh'
     BY <1>6, <2>1 DEF Store, Fresh
   <2> QED BY <2>2, <2>3, <2>4
-<1>7 ASSUME NEW g \in Gs, PrivateFetch(g) PROVE IndInv'
-  <2>1 CASE up
-    BY <1>7, <2>1 DEF PrivateFetch, EntryExact, Pending, Fresh
-  <2>2 CASE ~up
-    BY <1>7, <2>2 DEF PrivateFetch, EntryExact, Pending, Fresh
-  <2> QED BY <2>1, <2>2
 <1>7a ASSUME NEW g \in Gs, Abandon(g) PROVE IndInv'
-  BY <1>7a DEF Abandon, EntryExact, Pending, Fresh
-<1>7b ASSUME NEW g \in Gs, AbandonPrivate(g) PROVE IndInv'
-  BY <1>7b DEF AbandonPrivate, EntryExact, Pending, Fresh
+  BY <1>7a DEF Abandon, KeyOK, EntryExact, Pending, Fresh
+<1>7b ASSUME NEW g \in Gs, Cancel(g) PROVE IndInv'
+  BY <1>7b DEF Cancel, KeyOK, EntryExact, Pending, Fresh
+<1>7c ASSUME NEW k \in Keys, Evict(k) PROVE IndInv'
+  BY <1>7c DEF Evict, KeyOK, EntryExact, Pending, Fresh
 <1>8 ASSUME NEW g \in Gs, Return(g) PROVE IndInv'
-  BY <1>8 DEF Return, EntryExact, Pending, Fresh
+  BY <1>8 DEF Return, KeyOK, EntryExact, Pending, Fresh
 <1>9 CASE Advance
-  BY <1>9 DEF Advance, EntryExact, Pending, Fresh
+  BY <1>9 DEF Advance, KeyOK, EntryExact, Pending, Fresh
 <1>10 ASSUME NEW k \in Keys, Change(k) PROVE IndInv'
-  BY <1>10 DEF Change, EntryExact, Pending, Fresh
+  BY <1>10 DEF Change, KeyOK, EntryExact, Pending, Fresh
 <1>11 CASE Toggle
-  BY <1>11 DEF Toggle, EntryExact, Pending, Fresh
+  BY <1>11 DEF Toggle, KeyOK, EntryExact, Pending, Fresh
 <1>12 CASE UNCHANGED vars
-  BY <1>12 DEF vars, EntryExact, Pending, Fresh
-<1> QED BY <1>1, <1>2, <1>3, <1>4, <1>5, <1>6, <1>7, <1>7a, <1>7b, <1>8, <1>9, <1>10, <1>11, <1>12 DEF Next, GoStep
+  BY <1>12 DEF vars, KeyOK, EntryExact, Pending, Fresh
+<1> QED BY <1>1, <1>1a, <1>1b, <1>2, <1>3, <1>4, <1>5, <1>6, <1>7a, <1>7b, <1>7c, <1>8, <1>9, <1>10, <1>11, <1>12 DEF Next, GoStep
 
-THEOREM FreshAlways == Spec => [](Fresh /\ EntryExact)
-<1>1 IndInv => Fresh /\ EntryExact
+THEOREM FreshAlways == Spec => [](Fresh /\ EntryExact /\ KeyOK)
+<1>1 IndInv => Fresh /\ EntryExact /\ KeyOK
   BY DEF IndInv
 <1> QED BY InitInd, StepInd, <1>1, PTL DEF Spec
 =============================================================================
